@@ -174,6 +174,20 @@ func (ex *Exec) posOf(in ssa.Instruction) string {
 
 // goal records a proof obligation at the current point of the path.
 func (ex *Exec) goal(st *State, kind, name string, g Term, props []string, pos, text string, cl *Clause) {
+	env := ex.curEnv
+	// known findings: prove the obligation outside the recorded failing region
+	// and re-confirm that the region still fails.
+	if fs, ok := ex.findings[name]; ok && env != nil {
+		for _, f := range fs {
+			r, err := env.evalBool(f.Region)
+			if err != nil {
+				ex.specErrs = append(ex.specErrs, fmt.Sprintf("known_findings.txt region of %s: %v", name, err))
+				continue
+			}
+			ex.cover(st, name+"#known", and(r, not(g)), props, "recorded finding still fails: "+f.Region)
+			g = implies(not(r), g)
+		}
+	}
 	if g.S == "true" {
 		// trivially true: still counted as an obligation, discharged syntactically
 		ex.goals = append(ex.goals, &Goal{Name: name, Kind: kind, Fn: ex.fn.String(), Props: props, Pos: pos, Text: text, Goal: g, Expect: "unsat", Clause: cl})
@@ -181,6 +195,16 @@ func (ex *Exec) goal(st *State, kind, name string, g Term, props []string, pos, 
 	}
 	gl := &Goal{Name: name, Kind: kind, Fn: ex.fn.String(), Props: props, Pos: pos, Text: text,
 		Prefix: append([]string(nil), st.log...), Goal: g, Expect: "unsat", Clause: cl, PathTag: strings.Join(st.pathTag, ",")}
+	if ex.ct != nil && ex.ct.Replay != nil && env != nil {
+		for _, in := range ex.ct.Replay.Inputs {
+			v, err := env.evalTerm(in.Expr)
+			if err != nil {
+				continue
+			}
+			v = env.needTerm(v)
+			gl.Inputs = append(gl.Inputs, goalInput{in.Name, v.T})
+		}
+	}
 	ex.goals = append(ex.goals, gl)
 }
 
